@@ -293,3 +293,14 @@ package expressions
 //@   check none
 //@   scope functional
 //@   at call executeExpression#1 assert arg0 == tree && arg1 == orderOfOperations[$idx]
+
+// The numeric comparison operators are the IEEE-754 comparisons of the two doubles (every comparison
+// with NaN is false) - not complements of one another.
+//@ func _ltF [C06]
+//@   ensures result == (lv < rv)
+//@ func _ltEqF [C06]
+//@   ensures result == (lv <= rv)
+//@ func _gtF [C06]
+//@   ensures result == (lv > rv)
+//@ func _gtEqF [C06]
+//@   ensures result == (lv >= rv)
